@@ -221,7 +221,15 @@ fn op_pretty(job: &J) -> Result<J, String> {
             r["text"] = json!(t);
         }
         if label == "name" {
-            match uplc::parser::program(&text) {
+            let parsed = match guarded(|| uplc::parser::program(&text)) {
+                Ok(x) => x,
+                Err(p) => {
+                    r["parse_panic"] = json!(p);
+                    paths.push(r);
+                    continue;
+                }
+            };
+            match parsed {
                 Ok(q) => {
                     r["version_eq"] = json!(q.version == p.version);
                     let again = q.to_pretty();
@@ -363,14 +371,135 @@ fn op_data(job: &J) -> Result<J, String> {
     })
 }
 
+
+fn serde_facts(p: &Program<DeBruijn>) -> J {
+    use pallas_addresses::{Network, ShelleyDelegationPart};
+    use uplc::ast::SerializableProgram as SP;
+    let mut out = json!({});
+    let cbor = match p.to_cbor() {
+        Ok(c) => c,
+        Err(e) => return json!({"to_cbor_err": e.to_string()}),
+    };
+    out["cbor"] = json!(hex::encode(&cbor));
+    let fake_key = pallas_crypto::hash::Hash::<28>::from([0x11u8; 28]);
+    let fake_script = pallas_crypto::hash::Hash::<28>::from([0x22u8; 28]);
+    for (label, sp, language) in [
+        ("v1", SP::PlutusV1Program(p.clone()), lang_of("v1").unwrap()),
+        ("v2", SP::PlutusV2Program(p.clone()), lang_of("v2").unwrap()),
+        ("v3", SP::PlutusV3Program(p.clone()), lang_of("v3").unwrap()),
+    ] {
+        let mut o = json!({});
+        let v = serde_json::to_value(&sp).map_err(|e| e.to_string());
+        match v {
+            Err(e) => {
+                o["serialize_err"] = json!(e);
+            }
+            Ok(v) => {
+                o["json"] = v.clone();
+                match serde_json::from_value::<SP>(v.clone()) {
+                    Ok(back) => {
+                        let which = match &back {
+                            SP::PlutusV1Program(_) => "v1",
+                            SP::PlutusV2Program(_) => "v2",
+                            SP::PlutusV3Program(_) => "v3",
+                        };
+                        o["recovered"] = json!(which);
+                        o["program_eq"] = json!(back.inner() == p);
+                        o["resave_eq"] = json!(serde_json::to_value(&back).ok() == Some(v));
+                    }
+                    Err(e) => {
+                        o["deserialize_err"] = json!(e.to_string());
+                    }
+                }
+            }
+        }
+        let mut addrs = json!({});
+        for (nl, network) in [("testnet", Network::Testnet), ("mainnet", Network::Mainnet)] {
+            for (dl, deleg) in [
+                ("none", ShelleyDelegationPart::Null),
+                ("key", ShelleyDelegationPart::Key(fake_key)),
+                ("script", ShelleyDelegationPart::Script(fake_script)),
+            ] {
+                let a = p.address(network, deleg, &language);
+                addrs[format!("{nl}-{dl}")] = json!({"bytes": hex::encode(a.to_vec()), "bech32": a.to_bech32().ok()});
+            }
+        }
+        o["addresses"] = addrs;
+        out[label] = o;
+    }
+    out
+}
+
+/// C08: published hash / address / serde facts of a program given as JSON tree.
+fn op_hash(job: &J) -> Result<J, String> {
+    let p: Program<DeBruijn> = tj::program_from_json(&job["term"], job.get("version"))?;
+    Ok(serde_facts(&p))
+}
+
+/// C08: bytes the toolchain produced must re-encode bit for bit through every binder form.
+fn op_recode(job: &J) -> Result<J, String> {
+    let hx = job["hex"].as_str().ok_or("hex")?;
+    let mut out = json!({});
+    macro_rules! form {
+        ($t:ty, $label:expr) => {{
+            let mut b1 = Vec::new();
+            let mut b2 = Vec::new();
+            match Program::<$t>::from_hex(hx, &mut b1, &mut b2) {
+                Ok(p) => {
+                    out[$label] = json!(match p.to_hex() {
+                        Ok(h2) => if h2 == hx.to_lowercase() { "same".to_string() } else { format!("differs:{h2}") },
+                        Err(e) => format!("encode_err:{e}"),
+                    });
+                }
+                Err(e) => {
+                    out[$label] = json!(format!("decode_err:{e}"));
+                }
+            }
+        }};
+    }
+    form!(DeBruijn, "debruijn");
+    form!(NamedDeBruijn, "named_debruijn");
+    form!(FakeNamedDeBruijn, "fake");
+    let mut b1 = Vec::new();
+    let mut b2 = Vec::new();
+    if let Ok(p) = Program::<DeBruijn>::from_hex(hx, &mut b1, &mut b2) {
+        out["tree"] = tj::term_to_json(&p.term);
+        out["version"] = json!([p.version.0, p.version.1, p.version.2]);
+        out["serde"] = serde_facts(&p);
+        // through names and back (what `uplc decode | uplc encode` does)
+        let named: Result<Program<Name>, _> = p.clone().try_into();
+        if let Ok(n) = named {
+            let text = n.to_pretty();
+            match uplc::parser::program(&text) {
+                Ok(q) => {
+                    let d: Result<Program<DeBruijn>, _> = q.try_into();
+                    out["via_text"] = json!(match d {
+                        Ok(d) => match d.to_hex() {
+                            Ok(h2) => if h2 == hx.to_lowercase() { "same".to_string() } else { "differs".to_string() },
+                            Err(e) => format!("encode_err:{e}"),
+                        },
+                        Err(e) => format!("conv_err:{e:?}"),
+                    });
+                }
+                Err(_) => {
+                    out["via_text"] = json!("parse_err");
+                }
+            }
+        }
+    }
+    Ok(out)
+}
+
 fn dispatch(job: &J) -> Result<J, String> {
     match job["op"].as_str().unwrap_or("eval") {
         "eval" => op_eval(job),
         "codec" => op_codec(job),
-        "pretty" => op_pretty(job),
+        "pretty" => tj::with_plain(|| op_pretty(job)),
         "decode" => op_decode(job),
         "parse" => op_parse(job),
         "data" => op_data(job),
+        "hash" => op_hash(job),
+        "recode" => op_recode(job),
         "convert" => vh::conv::op_convert(job),
         o => Err(format!("unknown op {o}")),
     }
